@@ -52,6 +52,9 @@ pub struct Case {
     /// bases after the previous one ended (so slices start at arbitrary offsets inside storage words)
     #[serde(default)]
     pub slice_gap: Option<usize>,
+    /// 0 = as chosen above; 1 = `DnaSlice` (borrowed byte slices); 2 = the smallest `Lmer` that holds the longest read
+    #[serde(default)]
+    pub alt_container: u8,
     pub summ: Summ,
     pub reads: Vec<Read>,
     /// (memory_size argument, bytes per unit via hook H1); the first entry is the one-pass reference
@@ -436,6 +439,26 @@ fn run_k<K: Kmer>(c: &Case, rec: &mut Rec) -> Result<(), Violation> {
     if let Some(gap) = c.slice_gap {
         return run_slices::<K>(c, gap, rec);
     }
+    let longest = c.reads.iter().map(|r| r.seq.len()).max().unwrap_or(0);
+    match c.alt_container {
+        1 => {
+            let seqs: Vec<(debruijn::DnaSlice, Exts, u32)> = c.reads.iter().map(|r| (debruijn::DnaSlice(&r.seq), Exts::new(r.exts), r.label)).collect();
+            rec.count("reach_reads_as_byte_slices");
+            return run_seqs::<K, debruijn::DnaSlice>(c, &seqs, rec);
+        }
+        2 if longest <= 92 => {
+            use debruijn::vmer::{Lmer1, Lmer2, Lmer3};
+            rec.count("reach_reads_as_lmers");
+            return if longest <= 28 {
+                run_v::<K, Lmer1>(c, rec)
+            } else if longest <= 60 {
+                run_v::<K, Lmer2>(c, rec)
+            } else {
+                run_v::<K, Lmer3>(c, rec)
+            };
+        }
+        _ => {}
+    }
     if c.packed_container {
         run_v::<K, DnaString>(c, rec)
     } else {
@@ -533,6 +556,9 @@ impl Harness for C05 {
                 reads.push(Read { seq, exts, label });
             }
             rng.shuffle(&mut reads);
+            if rng.chance(1, 200) {
+                reads.clear();
+            }
         }
         let n_kmers: usize = reads.iter().map(|r| r.seq.len().saturating_sub(k - 1)).sum();
         let kmer_mem = n_kmers * size_of_pair(&ktype);
@@ -577,6 +603,7 @@ impl Harness for C05 {
             report_all: rng.chance(1, 2),
             packed_container: !big && rng.chance(1, 2),
             slice_gap: if !big && !many && rng.chance(1, 5) { Some(rng.below(40)) } else { None },
+            alt_container: if big || many { 0 } else { *rng.pick(&[0u8, 0, 0, 1, 2]) },
             summ,
             reads,
             budgets,
@@ -635,6 +662,11 @@ impl Harness for C05 {
         if c.slice_gap.is_some() {
             let mut x = c.clone();
             x.slice_gap = None;
+            out.push(x);
+        }
+        if c.alt_container != 0 {
+            let mut x = c.clone();
+            x.alt_container = 0;
             out.push(x);
         }
         // fewer passes: halve the slice count of the last budget
